@@ -156,6 +156,45 @@ def h_retransmit(ctx, rtx, nlost, wire=False):
     ctx.observe("n", len(sent))
 
 
+def h_rtx_clears_missing(ctx, rtx):
+    """A lost packet that comes back (as RTX when negotiated, verbatim otherwise) is no longer
+    missing: it is not requested again when the next gap is detected."""
+    from aiortc.rtp import wrap_rtx
+
+    r = _mk_receiver(rtx)
+    nacks = []
+
+    async def rec_nack(ssrc, lost):
+        nacks.append(list(lost))
+
+    async def no_pli(ssrc):
+        pass
+
+    r._send_rtcp_nack = rec_nack
+    r._send_rtcp_pli = no_pli
+    seq = ctx.int("seq_origin", 0, U16)
+
+    def media(k, ts):
+        p = RtpPacket(payload_type=96, sequence_number=(seq + k) & U16, timestamp=ts, ssrc=SSRC, marker=1)
+        p.payload = Vp8Encoder._packetize(bytes([0xB0 + k] * 3), 100 + k)[0]
+        return p
+
+    sx.run(r._handle_rtp_packet(media(0, 1000), arrival_time_ms=0))
+    sx.run(r._handle_rtp_packet(media(2, 7000), arrival_time_ms=10))  # seq+1 is missing now
+    ctx.check(len(nacks) == 1 and len(nacks[0]) == 1 and bool(sx.eq(nacks[0][0], (seq + 1) & U16)), "lost-packet-is-requested")
+    lost = media(1, 4000)
+    back = wrap_rtx(lost, payload_type=97, sequence_number=ctx.int("rtx_seq", 0, U16), ssrc=RTX_SSRC) if rtx else lost
+    sx.run(r._handle_rtp_packet(back, arrival_time_ms=20))
+    ctx.reach("repair-arrived")
+    missing = r._RTCRtpReceiver__nack_generator.missing
+    ctx.check(not any(bool(sx.eq(m, (seq + 1) & U16)) for m in missing), "recovered-packet-is-no-longer-missing")
+    sx.run(r._handle_rtp_packet(media(4, 13000), arrival_time_ms=30))  # a new gap: seq+3
+    ctx.check(len(nacks) == 2, "new-gap-is-requested")
+    if len(nacks) == 2:
+        ctx.check(not any(bool(sx.eq(m, (seq + 1) & U16)) for m in nacks[1]), "recovered-packet-is-not-requested-again", repr(nacks[1]))
+    ctx.observe("n", len(nacks))
+
+
 def h_send_rtx(ctx, order):
     """RTCRtpSender.send(): the RTX payload type used for retransmissions is the rtx entry whose
     apt names the codec being sent (codecs[0]), whatever the order of the negotiated codec list."""
@@ -365,6 +404,7 @@ STUBS = [
 HARNESSES = {
     "nack-step": Harness("nack-step", h_nack_step, lambda tier: [{"nmissing": n, "near": nr} for n in ((0, 1, 2) if tier == "quick" else (0, 1, 2, 3)) for nr in (False, True)], style="STEP", bounds="max_seq symbolic (also constrained near the wrap), <=2 (quick) / <=3 missing numbers anywhere in the 128-window, new packet from 130 behind to 8 ahead", encoded=ENC, stubs=STUBS, twin="nack-added", opts={"samples": 1}),
     "nack-jump": Harness("nack-jump", h_nack_jump, lambda tier: [{"jump": j} for j in ((129, 1000) if tier == "quick" else (129, 1000, 32767))], style="STEP (targeted, concrete size)", bounds="jumps of 129, 1000 (and 32767) sequence numbers from a symbolic max_seq", encoded=ENC, stubs=STUBS, twin="jumped", opts={"path_timeout_s": 300, "max_decisions": 200000}),
+    "rtx-clears-missing": Harness("rtx-clears-missing", h_rtx_clears_missing, lambda tier: [{"rtx": x} for x in (True, False)], style="STEP", bounds="real RTCRtpReceiver: packets seq, seq+2, the repair of seq+1 (RTX or verbatim), seq+4; sequence origins symbolic (16 bit)", encoded=ENC, stubs=STUBS, twin="repair-arrived", opts={"samples": 1}),
     "send-rtx": Harness("send-rtx", h_send_rtx, lambda tier: [{"order": list(o)} for o in (("x0",), ("b1", "x1", "x0"), ("x1", "b1", "x0"), ("b1", "x1"), ("x0", "b1", "x1"))], style="STEP", bounds="negotiated codec lists VP8 + {H264, rtx(apt VP8), rtx(apt H264)} in 5 orders, all payload types symbolic 96..127 and distinct", encoded=ENC + ["aiortc.rtcrtpsender:RTCRtpSender.send"], stubs=STUBS, twin="send-configured", opts={"samples": 1}),
     "retransmit": Harness("retransmit", h_retransmit, lambda tier: [{"rtx": x, "nlost": n} for x in (False, True) for n in ((1, 2) if tier == "quick" else (1, 2, 3))] + [{"rtx": False, "nlost": n, "wire": True} for n in ((2,) if tier == "quick" else (2, 3))], style="STEP", bounds="history of 3 packets at a symbolic origin; NACK listing <=2 (quick) / <=3 numbers from 2 before to 130 after the origin; RTX on/off; plus the same NACK serialised and parsed (ascending list from 20 before the history, steps 1..40)", encoded=ENC, stubs=STUBS, twin="nack-handled", opts={"samples": 1}),
     "loop": Harness(
